@@ -99,7 +99,7 @@ class VerdictCrate:
         return by, un
 
 
-def run_verdicts(vc: VerdictCrate, cases, log=None, max_rounds=8, toolchain=None, cmd="check"):
+def run_verdicts(vc: VerdictCrate, cases, log=None, max_rounds=8, toolchain=None, cmd="check", extra_args=()):
     """returns ({case_id: {"verdict": accepted|rejected, "errors": [...]}}, info) or raises Inconclusive"""
     out = {}
     alive = list(cases)
@@ -110,7 +110,7 @@ def run_verdicts(vc: VerdictCrate, cases, log=None, max_rounds=8, toolchain=None
         if rounds > max_rounds:
             raise Inconclusive("verdict build for %s did not reach a fixpoint in %d rounds" % (vc.name, max_rounds))
         vc.write(alive)
-        argv = ["cargo"] + (["+" + toolchain] if toolchain else []) + [cmd, "--offline", "--message-format=json", "--keep-going", "-q"]
+        argv = ["cargo"] + (["+" + toolchain] if toolchain else []) + [cmd, "--offline", "--message-format=json", "--keep-going", "-q"] + list(extra_args)
         rc, diags, err, dt = cratebuild.cargo_json(argv, vc.dir, vc.target)
         if rc == 0:
             for c in alive:
